@@ -14,8 +14,9 @@ import (
 
 func init() {
 	register("C06", Entry{
-		Title: "Each node gets exactly its own message; one-way calls never wait for handlers",
-		Run:   runC06,
+		Title:    "Each node gets exactly its own message; one-way calls never wait for handlers",
+		Run:      runC06,
+		Examples: true,
 		Meta: core.PropertyMeta{
 			Explanation: "P1: in the four entry points that accept a per-node function, the message handed to node n's queue is d.Message on the 'no function' edge and exactly d.PerNodeArgFn(d.Message, n.id) (n = this iteration's node) on the other; a node is skipped only on the '!IsValid()' edge of that result and is then neither enqueued nor counted (C02-T4 re-run); Unicast/RPCCall pass d.Message unchanged. P2: at most one enqueue per node and iteration, at most one sendMsg per dequeued request, one SendMsg per sendMsg. P3: Multicast performs at most as many confirmation receives as it enqueued and none on the no-send-waiting edge; Unicast performs at most one, none on that edge, where it registers no router. P4: handlers registered for one-way methods ignore their reply channel and never call SendMessage (generated files + template). P5: the send confirmation is a deferred call registered before any return of sendMsg, guarded only by waitForSend, which is exactly 'callType != nil && !noSendWaiting'; callType is written only by getCallOptions. P6: generated one-way stubs forward in, opts... and the per-node function faithfully.",
 			NotDecided:  "'Exactly once when reachable' (liveness, transport); message *equality* at the receiving node (codec, C13).",
@@ -99,7 +100,9 @@ func c06P1(l *core.Ledger, ep *entryPoint) {
 			continue
 		}
 		// nil test
-		isSlot := func(o sx.Origin) bool { return o.Kind == sx.KField && o.Field != nil && o.Field.Name() == "PerNodeArgFn" }
+		isSlot := func(o sx.Origin) bool {
+			return o.Kind == sx.KField && o.Field != nil && o.Field.Name() == "PerNodeArgFn"
+		}
 		var nonNil []sx.Edge
 		sx.AllInstrs(ep.fn, func(_ sx.Node, in ssa.Instruction) {
 			if ifi, ok := in.(*ssa.If); ok && isErrNonNil(ifi, isSlot) != 0 {
@@ -158,7 +161,9 @@ func c06P3(l *core.Ledger, eps []*entryPoint) {
 				return
 			}
 			v, _ := condOf(ifi)
-			if sx.All(sx.Origins(v), func(o sx.Origin) bool { return o.Kind == sx.KField && o.Field != nil && o.Field.Name() == "noSendWaiting" }) {
+			if sx.All(sx.Origins(v), func(o sx.Origin) bool {
+				return o.Kind == sx.KField && o.Field != nil && o.Field.Name() == "noSendWaiting"
+			}) {
 				nsw = append(nsw, edgeWhere(ifi, true))
 			}
 		})
@@ -185,7 +190,9 @@ func c06P3(l *core.Ledger, eps []*entryPoint) {
 		// no receive on a path that is consistent with noSendWaiting == true
 		_, reach := sx.Reach(sx.Entry(ep.fn), isRecv, sx.Query{CondClass: func(ifi *ssa.If) (string, bool) {
 			v, pos := condOf(ifi)
-			if sx.All(sx.Origins(v), func(o sx.Origin) bool { return o.Kind == sx.KField && o.Field != nil && o.Field.Name() == "noSendWaiting" }) {
+			if sx.All(sx.Origins(v), func(o sx.Origin) bool {
+				return o.Kind == sx.KField && o.Field != nil && o.Field.Name() == "noSendWaiting"
+			}) {
 				return "nsw", pos
 			}
 			return "", false
@@ -260,7 +267,9 @@ func c06P3(l *core.Ledger, eps []*entryPoint) {
 			}
 			if _, made := sx.Reach(sx.Entry(ep.fn), isMakeResp, sx.Query{CondClass: func(ifi *ssa.If) (string, bool) {
 				v, pos := condOf(ifi)
-				if sx.All(sx.Origins(v), func(o sx.Origin) bool { return o.Kind == sx.KField && o.Field != nil && o.Field.Name() == "noSendWaiting" }) {
+				if sx.All(sx.Origins(v), func(o sx.Origin) bool {
+					return o.Kind == sx.KField && o.Field != nil && o.Field.Name() == "noSendWaiting"
+				}) {
 					return "nsw", pos
 				}
 				return "", false
@@ -385,7 +394,9 @@ func evalWaitForSend(fn *ssa.Function, callTypeSet, noSendWaiting bool) (bool, b
 				}
 			}
 		}
-		if sx.All(sx.Origins(v), func(o sx.Origin) bool { return o.Kind == sx.KField && o.Field != nil && o.Field.Name() == "noSendWaiting" }) {
+		if sx.All(sx.Origins(v), func(o sx.Origin) bool {
+			return o.Kind == sx.KField && o.Field != nil && o.Field.Name() == "noSendWaiting"
+		}) {
 			return noSendWaiting, true
 		}
 		return false, false
